@@ -76,7 +76,7 @@ def run(run, replay=None):
     paths = [p for p in _rcommon.legal_paths(run, 6) if len(p) >= 2]
     traces = []
     for n in range(300 if quick else 2500):
-        h = domdriver.History(cat, shared_reader=True, shared_writer=rng.random() < 0.7)
+        h = domdriver.History(cat, shared_reader=rng.random() < 0.6, shared_writer=rng.random() < 0.7)     # else DiffX.from_bytes / to_bytes
         h.new()
         h.new(**domgen.rand_container_attrs(rng, 0))
         domgen.build_tree(h, rng, via_attrs=rng.random() < 0.5)
@@ -113,7 +113,7 @@ def run(run, replay=None):
     # state (generate_stats, serialise, parse); then one of them is changed in place at every position
     for n in range(60 if quick else 600):
         seed = rng.randrange(1 << 30)
-        h = domdriver.History(cat, shared_reader=True, shared_writer=True)
+        h = domdriver.History(cat, shared_reader=rng.random() < 0.5, shared_writer=True)
         a = domgen.build_tree(h, random.Random(seed), via_attrs=True)
         b = domgen.build_tree(h, random.Random(seed), via_attrs=True)
         for t in (a, b):
